@@ -461,8 +461,8 @@ func c19Partition(r *Run, ic *iterCopy) []string {
 	okSize, okKind := complete, complete
 	nSizeErr, nKindErr := 0, 0
 	for _, p := range paths {
-		sizePos := false   // size > 0 established
-		seqKind := false   // Kind in {Array, Slice} established
+		sizePos := false    // size > 0 established
+		seqKind := false    // Kind in {Array, Slice} established
 		notSeq := [2]bool{} // Kind != Array, Kind != Slice established
 		firstUse := len(p.decisions) + 1
 		for i, ev := range p.events {
